@@ -30,8 +30,8 @@ AllBackends == {"pandas", "sqlite", "polars", "pg"}
 AllDevOf == [b \in AllBackends |->
                CASE b = "pandas" -> {"pandas_drops_null_groups", "pandas_cum_null_hole", "null_cmp_false", "pandas_null_keys_match",
                                     "pandas_concat_null_as_text"}
-                 [] b = "sqlite" -> {"sql_maxmin_swapped", "sqlite_full_join_emulation", "sql_round_half_away"}
-                 [] b = "pg" -> {"sql_maxmin_swapped", "sql_round_half_away", "pg_is_nan_null_false"}
+                 [] b = "sqlite" -> {"sql_maxmin_swapped", "sqlite_full_join_emulation", "sql_round_half_away", "sqlite_mod_truncates"}
+                 [] b = "pg" -> {"sql_maxmin_swapped", "sql_round_half_away", "pg_is_nan_null_false", "pg_mod_truncates"}
                  [] b = "polars" -> {"polars_full_join_right_key_lost", "polars_maxmin_ignore_null", "polars_nunique_counts_null",
                                     "polars_is_nan_null"}]
 \* the value-level laws of the reference hold on a small universe (evaluated once, at the start of every run)
